@@ -319,5 +319,8 @@ def hand_render(v, rng, fancy=0.3):
         return "{" + ", ".join(items) + "}"
     if t == "dc":
         items = [f"{k}={hand_render(x, rng, fancy)}" for k, x in v[2]]
+        if items and v[1] in ("DC", "NT", "NTD") and v[2][0][0] in ("a", "f") and r() < fancy:
+            # first argument written positionally
+            items[0] = hand_render(v[2][0][1], rng, fancy)
         return f"{v[1]}(" + ", ".join(items) + ")"
     return V.expr(v)
